@@ -214,3 +214,55 @@ Proof.
         destruct Hin as [->|Hin]; [lia|auto].
       * constructor; [|assumption]. cbn [fst snd]. rewrite Nat2N.inj_succ. split; lia.
 Qed.
+
+(* ------------------------------------------------------------------------------------------- *)
+(* any rollback sets: a job asked to roll back `limit` times makes some call raise *)
+
+Lemma version_of_set vs k v j : version_of (set_version vs k v) j = if String.eqb k j then v else version_of vs j.
+Proof.
+  unfold version_of. destruct (String.eqb_spec k j) as [->|Hne].
+  - rewrite lookup_set_same. reflexivity.
+  - rewrite lookup_set_other by congruence. reflexivity.
+Qed.
+
+Lemma sync_noraise_count lim j reqs : forall vs,
+  snd (synchronize lim vs reqs) = false ->
+  version_of (fst (synchronize lim vs reqs)) j = version_of vs j + N.of_nat (asked j reqs).
+Proof.
+  induction reqs as [|[k b] r IH]; intros vs Hno; [simpl; lia|].
+  destruct b.
+  - simpl in *. rewrite (IH vs Hno). unfold asked. simpl. rewrite andb_false_r. reflexivity.
+  - simpl in Hno |- *. unfold update_request in *. destruct (can_retry lim (version_of vs k)); [|discriminate].
+    rewrite (IH _ Hno). rewrite version_of_set. unfold asked. cbn [filter fst snd negb].
+    destruct (String.eqb_spec k j) as [->|Hne]; cbn [andb length]; [rewrite Nat2N.inj_succ|]; lia.
+Qed.
+
+Lemma ensure_requests_version rb : forall vs j, version_of (ensure_requests vs rb) j = version_of vs j.
+Proof.
+  unfold ensure_requests. induction rb as [|[k b] r IH]; intros vs j; simpl; [reflexivity|].
+  rewrite IH. apply get_request_version.
+Qed.
+
+Lemma history_noraise_count lim j h : forall vs,
+  raised_in lim vs h = false ->
+  version_of (run_history lim vs h) j = version_of vs j + N.of_nat (asked_in j h).
+Proof.
+  induction h as [|rb r IH]; intros vs Hno; [simpl; lia|].
+  simpl in Hno |- *.
+  destruct (synchronize lim (ensure_requests vs rb) rb) as [vs' b] eqn:E.
+  apply orb_false_iff in Hno. destruct Hno as [Hb Hr]. subst b.
+  simpl. rewrite (IH vs' Hr).
+  pose proof (sync_noraise_count lim j rb (ensure_requests vs rb)) as H. rewrite E in H. simpl in H.
+  rewrite (H eq_refl), ensure_requests_version, Nat2N.inj_add. lia.
+Qed.
+
+(* EXHAUSTION FOR ANY ROLLBACK SETS: whatever else happens -- other jobs, larger rollback sets, recovering flags of other
+   requests, any interleaving -- a job that is asked to roll back `limit` times makes one of the calls raise *)
+Lemma keeps_failing_raises m h j :
+  1 <= m -> m <= N.of_nat (asked_in j h) -> raised_in (Some m) [] h = true.
+Proof.
+  intros Hm Hask. destruct (raised_in (Some m) [] h) eqn:E; [reflexivity|exfalso].
+  pose proof (history_noraise_count (Some m) j h [] E) as Hv.
+  pose proof (history_versions_le_limit m h j Hm) as Hb.
+  change (version_of [] j) with 1 in Hv. lia.
+Qed.
